@@ -130,6 +130,15 @@ def run(ctx):
             if isinstance(n, ast.Call) and isinstance(n.func, ast.Name) and n.func.id in mod.assigns:
                 if is_regex_method_name(prog, 'strutils', n.func.id):
                     out.append(n.func.id)
+            # NAME.match(arg) / .fullmatch / .search on a module-level compiled pattern
+            if isinstance(n, ast.Call) and isinstance(n.func, ast.Attribute) and n.func.attr in ('match', 'fullmatch', 'search') and \
+                    isinstance(n.func.value, ast.Name) and n.func.value.id in mod.assigns:
+                try:
+                    _p, _f, _n, _a = module_regex(prog, 'strutils', n.func.value.id)
+                except AnalysisError:
+                    continue
+                if _a is None:
+                    out.append('%s.%s' % (n.func.value.id, n.func.attr))
         return out
     # the emitter: args2sh itself, or the module-level helper it maps over its arguments
     emitter, via_helper = f, False
@@ -144,7 +153,11 @@ def run(ctx):
     if len(set(cands)) != 1:
         raise AnalysisError('anchor vanished: args2sh does not reach exactly one compiled-regex predicate (%s)' % sorted(set(cands)))
     PRED = cands[0]
-    pat, flags, node, attr = module_regex(prog, 'strutils', PRED)
+    if '.' in PRED:
+        pat, flags, node, attr = module_regex(prog, 'strutils', PRED.split('.')[0])
+        attr = PRED.split('.')[1]
+    else:
+        pat, flags, node, attr = module_regex(prog, 'strutils', PRED)
     where = '%s:%d' % (mod.relpath, node.lineno)
     p = sre_parse.parse(pat)
     items = list(p)
@@ -236,7 +249,8 @@ def run(ctx):
                         det2 = 'replace(%r, %r)' % (cval(mid.args[0]), cval(mid.args[1]))
                 ctx.ob('T13.sh', emitter.fq, "other arguments are wrapped in single quotes with every ' spliced as close-quote, "
                        "quoted ', reopen-quote", ok, loc=loc(emitter, o.node), detail=det2)
-    ctx.ob('T13.sh', emitter.fq, 'all three emission forms exist (raw, empty, quoted)', n_raw > 0 and n_q > 0 and n_e > 0, loc=emitter.loc)
+    ctx.ob('T13.sh', emitter.fq, 'all three emission forms exist (raw, empty, quoted; with a class+ whole-string test the empty argument takes the quoted form)',
+           n_raw > 0 and n_q > 0 and (n_e > 0 or positive), loc=emitter.loc)
     # dispatch
     e = prog.func('strutils.escape_shell_args')
     we, epaths = paths_of(prog, e)
